@@ -18,6 +18,7 @@ from rig.steprig import StepRig, make_flags, LoopDied      # noqa: E402
 from proxy.http.parser import HttpParser                                    # noqa: E402
 from proxy.http.server import HttpWebServerBasePlugin, ReverseProxyBasePlugin, httpProtocolTypes   # noqa: E402
 from proxy.http.responses import okResponse                                 # noqa: E402
+from proxy.http.websocket import WebsocketFrame                             # noqa: E402
 
 PROPERTY = 'C04'
 LEVEL = 'exploration'
@@ -49,7 +50,11 @@ class RouteA(HttpWebServerBasePlugin):
     NAME = b'WA'
 
     def routes(self) -> List[Tuple[int, str]]:
-        return [(httpProtocolTypes.HTTP, r'/wa/'), (httpProtocolTypes.HTTPS, r'/was/')]    # '/was/' exists behind the TLS front only
+        return [(httpProtocolTypes.HTTP, r'/wa/'), (httpProtocolTypes.HTTPS, r'/was/'),    # '/was/' exists behind the TLS front only
+                (httpProtocolTypes.WEBSOCKET, r'/wsa$')]                                   # an upgrade target (used by C05's hostile frames)
+
+    def on_websocket_message(self, frame: Any) -> None:
+        self.client.queue(memoryview(WebsocketFrame.text(b'ws-ack')))
 
     def handle_request(self, request: HttpParser) -> None:
         body = self.NAME + b'|' + _rid(request) + b'|' + (request.body or b'')[:8]
